@@ -319,7 +319,7 @@ func c04Exec(r *vf.Run, cfg c04Cfg, c *vf.Chooser) (keys []string, whats []strin
 			// the history connection: whatever happens there (the complementary capability set may make the send
 			// fail locally) is not judged; it only has to be over before the judged dial
 			if err := cl.DialWithContext(context.Background()); err == nil {
-				_ = cl.Send(hx.StdMsg(900, cfg.R, mail.EncodingQP))
+				_ = cl.Send(hx.StdMsg(900, cfg.R, enc), hx.StdMsg(901, cfg.R, mail.EncodingQP)) // (a message of the judged kind and a plain one)
 				_ = cl.Close()
 			}
 		}
